@@ -3,7 +3,7 @@
     literal agrees with Go's typing rules for this subset, every local variable is read and every
     import is used.  It returns the list of findings; [] means Go accepts the program as far as
     these rules go. *)
-From Goml Require Import Common.Base Sem.GoAst.
+From Goml Require Import Common.Base Sem.GoAst Sem.GoConst.
 Open Scope N_scope.
 
 Fixpoint gty_eqb (a b : gty) {struct a} : bool :=
@@ -294,6 +294,7 @@ Fixpoint synth (fuel : nat) (sc : list scope) (e : expr) {struct fuel} : gty * l
       let opnd := if is_const_e l then rt else lt in
       (match op with BAdd | BSub | BMul | BDiv => opnd | _ => GBool end,
        lf ++ rf ++
+       (match const_violation op l r t with Some _ => [(18, [99; 111; 110; 115; 116])] | None => [] end) ++
        if same then
          match op with
          | BAdd => if is_num opnd || gty_eqb opnd GString then [] else [(5, [43])]
